@@ -345,6 +345,21 @@ def tld_labels(table, tier, rng):
                 out.append(t[:k] + (b"q" if t[k:k + 1] != b"q" else b"z") + t[k + 1:])
     for _ in range(500 if tier == "quick" else 5000):
         out.append(bytes(rng.choice(b"abcdefghijklmnopqrstuvwxyz") for _ in range(rng.randint(2, 8))))
+    # bytes that a sloppy case fold (c | 0x20, c ^ 0x20, c & 0x5f) would alias to a listed name
+    for t in table:
+        if any(not (97 <= c <= 122) for c in t):
+            for k, c in enumerate(t):
+                if not (97 <= c <= 122):
+                    for alias in (c & ~0x20, c | 0x80, c ^ 0x20):
+                        if alias not in (0, c):
+                            out.append(t[:k] + bytes([alias & 0xff]) + t[k + 1:])
+            out.append(bytes((c & ~0x20) if not (97 <= c <= 122) else c for c in t))
+            out.append(bytes((c & ~0x20) for c in t))
+    for t in table[::25]:
+        for k in range(len(t)):
+            for alias in (t[k] & 0x1f, t[k] | 0x80, (t[k] & 0x5f) | 0x80):
+                if alias:
+                    out.append(t[:k] + bytes([alias]) + t[k + 1:])
     return out
 
 
@@ -367,6 +382,14 @@ def email_strings(tier, rng):
             out.append(b"a" * n + b"@" * k + b"b.com")
             out.append(b'"' + b"a" * (n - 2) + b'"' + b"@b.com")
     out += [b"a" * 70, b"@", b"@@", b"a@", b"@b.com", b"a@b@c@d.com"]
+    # the 64-OCTET limit with multi-byte characters (fewer than 64 characters, more than 64 octets)
+    for ch in ("я", "№", "😀", "é"):
+        e = ch.encode()
+        for octets in range(60, 70):
+            n, r = divmod(octets, len(e))
+            l = e * n + b"a" * r
+            out += [l + b"@b.com", l + "@почта.рф".encode(), b'"' + l[:-2] + b'"@b.com']
+        out.append(e * 64 + b"@b.com")
     for _ in range(500 if tier == "quick" else 10000):
         l = random_local(rng, True, 3)
         d = rng.choice(doms + [b"sub." + x for x in doms[:8]])
